@@ -21,7 +21,7 @@ type engine struct{}
 func (*engine) ID() string { return "C11" }
 
 const (
-	nLayouts   = 14
+	nLayouts   = 15
 	blockSizes = 41 // sizes 0..40
 )
 
@@ -71,7 +71,7 @@ func dist2(a, b rtree.Box) float64 {
 
 // ---------------------------------------------------------------- scenario
 
-var layoutNames = [nLayouts]string{"uniform", "points", "hlines", "vlines", "duplicates", "same-centre", "nested", "clusters", "collinear", "tied-centre-sums", "huge", "mixed-sign-zero", "all-identical", "general-floats"}
+var layoutNames = [nLayouts]string{"uniform", "points", "hlines", "vlines", "duplicates", "same-centre", "nested", "clusters", "collinear", "tied-centre-sums", "huge", "mixed-sign-zero", "all-identical", "general-floats", "tiny-scale"}
 
 type scen struct {
 	m       *vs.Stream
@@ -103,12 +103,15 @@ func (sc *scen) gen() {
 	}
 	off := 0
 	switch sc.layout {
+	case 14:
+		// integers times 2^-k with k up to 1040: gaps whose squares underflow
+		sc.scale = math.Ldexp(1, -(500 + m.Intn(540, "scale")))
 	case 10:
 		sc.scale = math.Ldexp(1, 40+m.Intn(400, "scale"))
 	case 11:
 		off = -L / 2
 	}
-	if sc.layout != 10 && sc.layout != 13 && m.Intn(6, "sc") == 5 {
+	if sc.layout != 10 && sc.layout != 13 && sc.layout != 14 && m.Intn(6, "sc") == 5 {
 		sc.scale = math.Ldexp(1, m.Intn(41, "scale")-20)
 	}
 	items := make([]item, 0, n)
@@ -116,7 +119,7 @@ func (sc *scen) gen() {
 	for i := 0; i < n; i++ {
 		var b rtree.Box
 		switch sc.layout {
-		case 0, 10:
+		case 0, 10, 14:
 			b = mk(r(L), r(L), r(L/4+1), r(L/4+1))
 		case 1:
 			b = mk(r(L), r(L), 0, 0)
@@ -200,6 +203,22 @@ func (sc *scen) gen() {
 		mul := 1 + m.Intn(7, "idmul")
 		for i := range items {
 			items[i].id = base + i*mul
+		}
+		if m.Intn(2, "idspecial") == 1 {
+			// record ids a caller may well use: -1 and the integer extremes
+			special := []int{-1, math.MinInt64, math.MaxInt64, -2, math.MaxInt32, math.MinInt32}
+			for i := range items {
+				if i < len(special) {
+					items[(i*7)%len(items)].id = special[i]
+				}
+			}
+			seen := map[int]bool{}
+			for i := range items { // keep ids unique
+				for seen[items[i].id] {
+					items[i].id += 1000003
+				}
+				seen[items[i].id] = true
+			}
 		}
 	}
 	sc.items = items
